@@ -122,7 +122,7 @@ fn crash_at(ops: &[Op], p: &Point, idx: u64) -> CheckResult {
             committed_before = r.model.committed;
             blocks_before = r.model.blocks.iter().map(|b| b.reqs.clone()).collect();
             hef_before = r.model.hef;
-            if let Op::Reorg { depth } = op {
+            if let Op::Reorg { depth, .. } = op {
                 reorg_target = r.model.height().map(|h| h.saturating_sub(*depth as u64));
             }
         }
